@@ -1,7 +1,6 @@
 package main
 
 import (
-	"go/token"
 	"strings"
 
 	"golang.org/x/tools/go/ssa"
@@ -431,10 +430,8 @@ func checkC11(c *Ctx, r *Report) {
 	if f := r5.need("(*" + relT + ").disconnected"); f != nil {
 		dels := findInstrs(f, func(in ssa.Instruction) bool { return isCallTo(in, "builtin.delete") && isFieldWrite(in, relT+".rsvp") })
 		connected := constIntObj(c, "core/network", "Connected")
-		notConn := edgeCmp(func(b *ssa.BinOp) bool {
-			k, ok := constInt(b.Y)
-			return ok && k == connected && b.Op == token.EQL && isResultOfCall(b.X, 0, "(core/network.*).Connectedness") != nil
-		}, false)
+		notConn := edgeExcl(func(v ssa.Value) bool { return isResultOfCall(v, 0, "(core/network.*).Connectedness") != nil },
+			func(v ssa.Value) bool { k, ok := constInt(v); return ok && k == connected }, ordEQ)
 		r5.guard(f, "delete(rsvp, p)", dels, "Connectedness(p) != Connected", notConn, nil)
 		cps := findInstrs(f, callPred("(*"+relP+".constraints).cleanupPeer"))
 		r5.guard(f, "constraints.cleanupPeer(p)", cps, "Connectedness(p) != Connected", notConn, nil)
